@@ -304,6 +304,33 @@ def reorder_defs(source):
     return ast.unparse(tree) + '\n'
 
 
+def kwargs_calls(source):
+    """ Positional arguments of self.method(...) calls become keyword arguments, for methods defined (once, or every time with
+    the same parameter names) in classes of the same module, without *args.  Same call, different spelling. """
+    tree = ast.parse(source)
+    sigs = {}
+    for c in [n for n in ast.walk(tree) if isinstance(n, ast.ClassDef)]:
+        for f in c.body:
+            if isinstance(f, ast.FunctionDef) and f.args.args and f.args.args[0].arg == 'self' and not f.args.vararg and not f.args.posonlyargs:
+                names = tuple(a.arg for a in f.args.args[1:])
+                sigs.setdefault(f.name, set()).add(names)
+            elif isinstance(f, ast.FunctionDef):
+                sigs.setdefault(f.name, set()).add(None)
+    for call in [n for n in ast.walk(tree) if isinstance(n, ast.Call)]:
+        f = call.func
+        if isinstance(f, ast.Attribute) and isinstance(f.value, ast.Name) and f.value.id == 'self' and len(sigs.get(f.attr, ())) == 1:
+            names = next(iter(sigs[f.attr]))
+            if names is None or any(isinstance(a, ast.Starred) for a in call.args) or len(call.args) > len(names) or len(call.args) < 2:
+                continue
+            given = {k.arg for k in call.keywords}
+            if any(n in given for n in names[:len(call.args)]):
+                continue
+            call.keywords = [ast.keyword(n, a) for (n, a) in zip(names, call.args)] + call.keywords
+            call.args = []
+    ast.fix_missing_locations(tree)
+    return ast.unparse(tree) + '\n'
+
+
 TRANSFORMS = {
     'unparse': unparse,
     'rename_locals': rename_locals,
@@ -314,6 +341,7 @@ TRANSFORMS = {
     'guard_clauses': guard_clauses,
     'nest_returns': nest_returns,
     'reorder_defs': reorder_defs,
+    'kwargs_calls': kwargs_calls,
 }
 
 
